@@ -10,7 +10,8 @@ if [ ! -d $S/tree ] || [ -n "$FRESH" ]; then
 fi
 rsync -a --exclude cmd /verif/sim/ $S/tree/zz_verif/
 PKG=$1; TEST=$2; PROP=$3; N=$4; shift 4
-(cd $S/tree && go test -c -trimpath -tags verif -o $S/$PKG.test ./zz_verif/$PKG) || exit 2
+OV=$(/verif/tools/mkoverlay.py $S/ovl) || exit 2
+(cd $S/tree && go test -c -trimpath -tags "verif verifrand" -overlay $OV -o $S/$PKG.test ./zz_verif/$PKG) || exit 2
 cd $S/tree/zz_verif/$PKG && GODEBUG=asyncpreemptoff=1 GOMAXPROCS=1 VERIF_KNOWN=/verif/known_findings.json VERIF_PROPERTY=$PROP VERIF_OUT=$S/out-$PROP.json timeout -s QUIT ${TMO:-600} $S/$PKG.test -test.run "^$TEST\$" -rapid.checks=$N -rapid.nofailfile -rapid.shrinktime=${SHRINK:-30s} "$@" > $S/run-$PROP.log 2>&1
 python3 - <<PY
 import json
